@@ -25,7 +25,7 @@
    correspondence), that ssa replay of the bit path denotes the same tree (checked per case
    inside Coq via ssa_tree), and that simplify()/subgraphs() leave a precondition network
    untouched (exercised end to end by the oracle). *)
-From Coq Require Import ZArith NArith List Lia.
+From Coq Require Import ZArith NArith List Lia Permutation.
 From Ctg Require Import Base Net Optimal OptimalFacts.
 Import ListNotations.
 Open Scope nat_scope.
@@ -183,6 +183,61 @@ Theorem C09_dp_terminates_search_outer : forall nodes app szs o f cap,
                     /\ nth (length nodes) tabs [] <> [].
 Proof. exact dp_terminates_search_outer. Qed.
 Print Assumptions C09_dp_terminates_search_outer.
+
+(* ---- total correctness of the model: the top level holds exactly one entry when the loop
+   stops (Python's `((_, _, bitpath),) = contractions[nterms].values()` cannot fail), so with
+   enough fuel dp_result returns, and by C09_dp_optimal what it returns is optimal ---- *)
+Theorem C09_dp_returns_single_entry : forall nodes app szs o so fuel cap tabs cap',
+  wf_procb nodes app szs = true -> obj_ok o -> 1 <= length nodes ->
+  dp_loop app szs o so (length nodes) fuel cap (dp_init (length nodes) nodes) = Some (tabs, cap') ->
+  exists S e, nth (length nodes) tabs [] = [(S, e)].
+Proof. exact dp_single_entry. Qed.
+Print Assumptions C09_dp_returns_single_entry.
+
+Theorem C09_dp_result_total : forall nodes app szs o so t0 f cap,
+  wf_procb nodes app szs = true -> obj_ok o -> 1 <= length nodes ->
+  full_tree (length nodes) t0 -> admissible nodes app so t0 = true ->
+  (tscore nodes app szs o t0 <= cap * 2 ^ Z.of_nat f)%Z ->
+  exists sc bp, dp_result app szs o so (length nodes) nodes (S f) cap = Some (sc, bp).
+Proof. exact dp_result_total. Qed.
+Print Assumptions C09_dp_result_total.
+
+(* ---- the exhaustive enumerator: all_trees ls lists only trees over exactly the leaves ls, and
+   every binary tree over ls up to swapping children (teq); so brute_min, the minimum of the
+   spec score over the enumerated admissible trees, is the certified optimum, and the DP
+   equals it on every well-formed network ---- *)
+Theorem C09_all_trees_sound : forall ls t, In t (all_trees ls) -> Permutation (leaves t) ls.
+Proof. exact all_trees_sound. Qed.
+Print Assumptions C09_all_trees_sound.
+
+Theorem C09_all_trees_complete : forall ls t, Permutation (leaves t) ls ->
+  exists t0, In t0 (all_trees ls) /\ teq t t0.
+Proof. exact all_trees_complete. Qed.
+Print Assumptions C09_all_trees_complete.
+
+Theorem C09_swap_preserves_score : forall nodes app szs o t t0, teq t t0 ->
+  tscore nodes app szs o t = tscore nodes app szs o t0 /\
+  outer_free nodes app t = outer_free nodes app t0 /\ mask t = mask t0.
+Proof.
+  exact (fun nodes app szs o t t0 H =>
+           conj (teq_tscore nodes app szs o t t0 H) (conj (teq_outer_free nodes app t t0 H) (teq_mask t t0 H))).
+Qed.
+Print Assumptions C09_swap_preserves_score.
+
+Theorem C09_brute_min_is_min : forall nodes app szs o so v,
+  brute_min nodes app szs o so = Some v ->
+  (exists t, full_tree (length nodes) t /\ admissible nodes app so t = true /\ tscore nodes app szs o t = v) /\
+  (forall t', full_tree (length nodes) t' -> admissible nodes app so t' = true ->
+              (v <= tscore nodes app szs o t')%Z).
+Proof. exact brute_min_is_min. Qed.
+Print Assumptions C09_brute_min_is_min.
+
+Theorem C09_dp_equals_enumerated_minimum : forall nodes app szs o so fuel cap sc bp v,
+  wf_procb nodes app szs = true -> obj_ok o -> 1 <= length nodes ->
+  dp_result app szs o so (length nodes) nodes fuel cap = Some (sc, bp) ->
+  brute_min nodes app szs o so = Some v -> sc = v.
+Proof. exact dp_equals_brute. Qed.
+Print Assumptions C09_dp_equals_enumerated_minimum.
 
 (* ---- the traced loop used by the correspondence computes the same tables ---- *)
 Theorem C09_traced_loop_is_the_loop : forall app szs obj so nt fuel cap st,
